@@ -14,6 +14,8 @@ TRUSTED = [
     "rule-level theorems are about the lexer model (Model/Lex.lean), differentially validated against the real lexer (C39)",
     "the segment-level reference Spec/Trim.lean is compared with the real renderer by this run; its agreement with the "
     "lexer model on all skeletons is tested, not proved (the skeleton theorem of DESIGN §5 C12 is not established)",
+    "harness/envways.py: the options in effect of an environment are computed from its history; Wire/EnvWays.lean trim-env "
+    "extends the reference by keep_trailing_newline and newline_sequence as docs/api.rst words them",
 ]
 ASSUMPTIONS = ["skeleton texts share no characters with delimiters and signs; tag interiors are single-line"]
 
@@ -51,8 +53,10 @@ def exhaustive_small():
 
 
 def run(ctx, res):
+    from harness import envways as ew
     jinja2 = core.import_jinja()
     rng = ctx.rng("c12")
+    way_counts = {}
     skeletons = list(exhaustive_small())
     if ctx.quick:
         skeletons = skeletons[::3]
@@ -67,14 +71,17 @@ def run(ctx, res):
             # line-break normalisation and the trailing newline are C11's subject: keep them out of the way here
             c = dict(d, trim_blocks=trim, lstrip_blocks=lstrip, keep_trailing_newline=True)
             sk = skeletons if di == 0 else skeletons[di::5]
-            variants = lc.env_variants(jinja2, c)
+            variants = ew.variants(jinja2, c)
+            for vn, _ in variants:
+                way_counts.setdefault(vn, 0)
             reps = core.driver_batch([[Atom("trim"), lc.enc_cfg(c), s] for s in sk])
             for i, (s, rep) in enumerate(zip(sk, reps)):
                 if rep[0] != "ok":
                     continue
                 src, pieces = rep[1], rep[2]
                 want = "".join(p[1] if str(p[0]) == "data" else p[1].strip("'") for p in pieces)
-                vname, env = variants[i % 3]
+                vname, env = variants[i % len(variants)]
+                way_counts[vname] += 1
                 try:
                     got = env.from_string(src).render()
                 except Exception as e:  # noqa
@@ -86,24 +93,96 @@ def run(ctx, res):
                     kinds = sorted({str(x[1]) if str(x[0]) == "tag" else str(x[0]) for x in s if str(x[0]) != "text"})
                     res.violate(f"C12:{name}:" + "+".join(kinds),
                                 f"trim_blocks={trim} lstrip_blocks={lstrip} ({vname}): {src!r} renders {got!r}; the documented rules give {want!r}",
-                                {"source": src, "trim_blocks": trim, "lstrip_blocks": lstrip, "config": c, "segments": core.sx(s)})
+                                {"source": src, "trim_blocks": trim, "lstrip_blocks": lstrip, "config": c, "way": vname,
+                                 "documented": want, "segments": core.sx(s)})
             if len(samples) < 2:
                 samples.append({"source": reps[-1][1], "trim_blocks": trim, "lstrip_blocks": lstrip})
+    ways = run_env_ways(ctx, res, jinja2, ew)
     res.coverage.update({
-        "evaluations": total,
-        "distinct_nontrivial": len(distinct),
+        "evaluations": total + ways["evaluations"],
+        "distinct_nontrivial": len(distinct) + ways["distinct_nontrivial"],
         "rule": ("skeletons of text (12 whitespace runs x words), block/comment/variable tags with every '-', '+', no-sign "
                  "combination on each side, and raw blocks (signs on all four sides): exhaustive text-tag-text triples "
                  f"({'every third' if ctx.quick else 'all'}) plus random skeletons of 1-6 segments, under the four trim/lstrip settings x "
-                 "default/ERB/PHP delimiters, rendered through fresh / overlay-of-used / Template(...) environments and "
-                 "compared with the Lean reference rules"),
+                 "default/ERB/PHP delimiters, each configuration reached in " + str(len(way_counts)) + " ways in rotation (fresh; "
+                 "Template(...); overlay of a used parent overriding everything / only the whitespace options / one "
+                 "whitespace option / only the delimiters; overlay chain used at each level; overlay of a fresh parent; sibling "
+                 "overlays; the parent after its overlays were used) and compared with the Lean reference rules; then "
+                 "environment histories: " + ways["rule"]),
         "samples": samples,
         "mismatches": mism,
+        "renders_by_way": way_counts,
+        "environment_ways": ways,
     })
+
+
+def run_env_ways(ctx, res, jinja2, ew):
+    """histories of environments (harness/envways.py): whatever an environment's history, it renders a skeleton as the
+    documented rules say for the options in effect (trim_blocks, lstrip_blocks, keep_trailing_newline, newline_sequence)"""
+    rng = ctx.rng("env-ways")
+    roots = ew.default_roots(rng, ctx.pick(0, 6))
+    scenarios = ew.systematic(rng, roots) + [ew.random_scenario(rng) for _ in range(ctx.pick(60, 1500))]
+    stats = ew.attach_probes(rng, scenarios, ctx.pick(2, 4), 0)
+    fresh = ew.Fresh(jinja2)
+    st = {"evaluations": 0, "uses": 0, "overlay_uses": 0, "overlay_uses_where_the_parents_options_give_another_result": 0,
+          "suppressed_repeats": 0}
+    by_way, distinct, per_key = {}, set(), {}
+    for sc in scenarios:
+        events = sc.events
+
+        def on_use(ev, env, events=events):
+            o, way, dk = ev["opts"], ev["way"], ev["delta"]
+            by_way[f"{way}:{dk}"] = by_way.get(f"{way}:{dk}", 0) + 1
+            st["uses"] += 1
+            shows = False
+            for p in ev["skeletons"]:
+                src, want = p["source"], p["documented"]
+                got = ew.render(env, src)
+                st["evaluations"] += 1
+                distinct.add((ew.okey(o), way, dk, src))
+                if ev["parent_opts"] is not None and fresh(ev["parent_opts"], src) != want:
+                    shows = True
+                if got != want:
+                    key = f"C12:env:{way}:{dk}"
+                    per_key[key] = per_key.get(key, 0) + 1
+                    if per_key[key] > 3:
+                        st["suppressed_repeats"] += 1
+                        continue
+                    res.violate(key, f"{ew.describe(events, ev)}: {src!r} renders {got!r}; the documented rules for the options in "
+                                f"effect ({ew._short(o) or 'defaults'}) give {want!r}; a fresh Environment with these options "
+                                f"renders {fresh(o, src)!r}",
+                                {"history": ew.history(events, ev), "source": src, "observed": got, "documented": want,
+                                 "segments": p["segments"]})
+            if ev["parent_opts"] is not None:
+                st["overlay_uses"] += 1
+                st["overlay_uses_where_the_parents_options_give_another_result"] += shows
+
+        ew.execute(jinja2, events, on_use)
+    shapes = {}
+    for sc in scenarios:
+        shapes[sc.shape] = shapes.get(sc.shape, 0) + 1
+    st.update({
+        "distinct_nontrivial": len(distinct), "scenarios": shapes, "roots": [ew._short(r) or "defaults" for r in roots],
+        "uses_by_way_and_overridden_option_group": dict(sorted(by_way.items())), "violations_by_key": per_key, **stats,
+        "rule": (f"{len(scenarios)} histories over {len(roots)} root option sets (Environment(...) or Template('',...).environment): "
+                 "for every root and every override set (each whitespace option alone, all 11 combinations, line prefixes, "
+                 "delimiter sets, mixtures, none) an overlay of the fresh and of the already used root, sibling overlays, "
+                 "chains of depth 3 used at each level, parents used again after their overlays, plus random histories; at "
+                 "each use 2 fixed skeletons sensitive to all four whitespace options + random skeletons are rendered and "
+                 "compared with the Lean reference trim-env under the options in effect (incl. keep_trailing_newline and "
+                 "newline_sequence)"),
+    })
+    return st
 
 
 def replay(ctx, case):
     jinja2 = core.import_jinja()
+    from harness import envways as ew
     c = case["case"]
+    if "history" in c:
+        return ew.replay_history(jinja2, c)
     env = jinja2.Environment(**c["config"])
-    return {"render": env.from_string(c["source"]).render()}
+    out = {"render": env.from_string(c["source"]).render()}
+    if c.get("way"):
+        out["render_through_" + c["way"]] = dict(ew.variants(jinja2, c["config"]))[c["way"]].from_string(c["source"]).render()
+    return out
